@@ -1,4 +1,5 @@
 import Sif.Model.Mint
+import Sif.Model.RewardsIssuance
 /-
   C20 — decidable statements of bounded issuance.  Core only: the same predicates the theorems of
   Sif/Props/C20.lean talk about are evaluated by the driver on the values the *implementation*
@@ -28,5 +29,70 @@ def mintStepOK (cap perBlock cPrev cNow supPrev supNow holdPrev holdNow : Nat) :
 /-- after n blocks from c₀ ≤ cap -/
 def mintAfterOK (cap perBlock c0 n cNow : Nat) : Bool :=
   decide (cNow = min (c0 + n * perBlock) cap)
+
+end Sif.Spec.C20
+
+/-! ## (b) AMM depth rewards -/
+namespace Sif.Spec.C20
+open Sif Sif.Rewards
+
+/-- a period's per-block share ⌊allocation / length⌋ -/
+def share (p : Period) : Nat := p.alloc / (p.stop - p.start + 1)
+
+/-- what a block of period `p` (mod already normalised to ≥ 1) may create at most:
+    nothing on a non-distribution block; its own share in the period's first block; on a later
+    distribution block the shares of the `mod` blocks since the previous distribution block -/
+def blockBound (p : Period) (h : Nat) : Nat :=
+  if (h - p.start) % p.mod ≠ 0 then 0
+  else if h = p.start then share p
+  else share p * p.mod
+
+/-- per-block clause, on the current period of the block (none = no reward period covers it) -/
+def rewardsBlockOK (cur : Option Period) (h minted : Nat) : Bool :=
+  match cur with
+  | none => minted == 0
+  | some p => if p.alloc = 0 then minted == 0 else decide (minted ≤ blockBound p h)
+
+/-- per-period clause: a period never creates more than its allocation -/
+def rewardsPeriodOK (p : Period) (total : Nat) : Bool := decide (total ≤ p.alloc)
+
+/-- amounts created at heights inside period `p`; `ms` are the amounts of heights h, h+1, … -/
+def sumIn (p : Period) : Nat → List Nat → Nat
+  | _, [] => 0
+  | h, m :: ms => (if inRange p h then m else 0) + sumIn p (h + 1) ms
+
+/-- the per-block entitlement of height h -/
+def entitledAt (periods : List Period) (h : Nat) : Nat :=
+  match currentPeriod periods h with
+  | none => 0
+  | some p => if p.alloc = 0 then 0 else share p
+
+/-- Σ of the per-block entitlements of heights h … h+n-1 -/
+def entitled (periods : List Period) : Nat → Nat → Nat
+  | _, 0 => 0
+  | h, n + 1 => entitledAt periods h + entitled periods (h + 1) n
+
+/-- cumulative clause: everything created so far plus the carried-over accumulator never exceeds
+    the initial accumulator plus the per-block entitlements so far -/
+def rewardsCumOK (accu0 entitledSoFar totalMinted accu : Nat) : Bool :=
+  decide (totalMinted + accu ≤ accu0 + entitledSoFar)
+
+/-- operating envelope of section 5 for reward periods (no uint64 wrap, no 2^256 overflow) -/
+def periodOK (p : Period) : Bool :=
+  decide (p.start ≤ p.stop) && decide (p.stop < 2 ^ 62) && decide (p.mod < 2 ^ 62) && decide (p.alloc < 2 ^ 200)
+
+def inEnvelope (periods : List Period) : Bool := periods.all periodOK
+
+/-- reward periods do not overlap -/
+def disjoint (a b : Period) : Prop := a.stop < b.start ∨ b.stop < a.start
+instance (a b : Period) : Decidable (disjoint a b) := by unfold disjoint; infer_instance
+def periodsDisjoint (periods : List Period) : Prop := periods.Pairwise disjoint
+instance (periods : List Period) : Decidable (periodsDisjoint periods) := by unfold periodsDisjoint; infer_instance
+
+/-- what the accumulator may hold when block h begins (inside a period, after its first block):
+    the shares of the non-distribution blocks since the last distribution block -/
+def accuInv (periods : List Period) (h accu : Nat) : Prop :=
+  ∀ p, currentPeriod periods h = some p → p.alloc ≠ 0 → h ≠ p.start →
+    accu ≤ share p * ((h - p.start - 1) % p.mod)
 
 end Sif.Spec.C20
